@@ -157,7 +157,11 @@ func runLakeErrDiscipline(c *Ctx, rule string) {
 			}
 			switch errVerdict(ci) {
 			case "propagated":
-				c.OK(rule, construct, ci.Pos(), "propagated")
+				if ret := errDeadOnSomePath(ci); ret != nil {
+					c.Fail(rule, construct, ci.Pos(), "error of "+callee+" is looked at on some paths only: the return at "+p.Pos(ret.Pos())+" is reachable without any test, return or store of it")
+				} else {
+					c.OK(rule, construct, ci.Pos(), "propagated")
+				}
 			case "dropped":
 				how := "result discarded"
 				if _, ok := ci.(*ssa.Defer); ok {
@@ -233,19 +237,10 @@ func methodNamesOf(t types.Type) map[string]bool {
 	return out
 }
 
-// onErrorPathStrict: like onErrorPath, but every return reachable from the call
-// must return an error that is *certainly* non-nil there: a value tested
-// non-nil on an arm that dominates the return, the result of an error
-// constructor, a package-level Err* variable, or a phi of such.  A return of
-// another fallible call's result (`return q.writeHead(..)`) can be nil, so the
-// call is on a path that can still succeed and its error is an obligation.
-func onErrorPathStrict(ci ssa.CallInstruction) bool {
-	in := ci.(ssa.Instruction)
-	fn := in.Parent()
-	idx := errIndex(fn.Signature)
-	if idx < 0 {
-		return false
-	}
+// nonNilOracle returns a predicate: the error value v is certainly non-nil in block at
+// (tested non-nil on a dominating arm, an error constructor, an Err* variable, a boxed
+// concrete error, or a phi of such).
+func nonNilOracle(fn *ssa.Function) (func(v ssa.Value, at *ssa.BasicBlock) bool, func(b *ssa.BasicBlock) bool) {
 	type guard struct {
 		v   ssa.Value
 		arm *ssa.BasicBlock
@@ -279,16 +274,6 @@ func onErrorPathStrict(ci ssa.CallInstruction) bool {
 		if arm != nil && len(arm.Preds) == 1 {
 			guards = append(guards, guard{v, arm})
 		}
-	}
-	b := in.Block()
-	dominated := false
-	for _, g := range guards {
-		if g.arm.Dominates(b) {
-			dominated = true
-		}
-	}
-	if !dominated {
-		return false
 	}
 	var nonNil func(v ssa.Value, at *ssa.BasicBlock, depth int) bool
 	nonNil = func(v ssa.Value, at *ssa.BasicBlock, depth int) bool {
@@ -327,9 +312,35 @@ func onErrorPathStrict(ci ssa.CallInstruction) bool {
 		}
 		return false
 	}
+	inGuard := func(b *ssa.BasicBlock) bool {
+		for _, g := range guards {
+			if g.arm.Dominates(b) {
+				return true
+			}
+		}
+		return false
+	}
+	return func(v ssa.Value, at *ssa.BasicBlock) bool { return nonNil(v, at, 0) }, inGuard
+}
+
+// onErrorPathStrict: like onErrorPath, but every return reachable from the call
+// must return an error that is *certainly* non-nil there (see nonNilOracle).  A
+// return of another fallible call's result (`return q.writeHead(..)`) can be nil,
+// so the call is on a path that can still succeed and its error is an obligation.
+func onErrorPathStrict(ci ssa.CallInstruction) bool {
+	in := ci.(ssa.Instruction)
+	fn := in.Parent()
+	idx := errIndex(fn.Signature)
+	if idx < 0 {
+		return false
+	}
+	nonNil, inGuard := nonNilOracle(fn)
+	if !inGuard(in.Block()) {
+		return false
+	}
 	bad := reachAvoiding(fn, in, func(ssa.Instruction) bool { return false }, func(x ssa.Instruction) bool {
 		r, ok := x.(*ssa.Return)
-		return ok && !nonNil(returnOperand(r, idx), r.Block(), 0)
+		return ok && !nonNil(returnOperand(r, idx), r.Block())
 	})
 	return bad == nil
 }
@@ -1066,4 +1077,65 @@ func runFilterInstancesArePrivate(c *Ctx, rule string) {
 	if n < 4 {
 		c.Undecided(rule, "zbuf.Filter implementers", "fewer than four AsEvaluator/AsBufferFilter methods found ("+sprint(n)+")")
 	}
+}
+
+// errDeadOnSomePath: from the call, a return is reachable on a path that passes no use of the
+// call's error value (no test, return, store, pass-on).  The error is then lost on that path
+// although other paths look at it.
+func errDeadOnSomePath(ci ssa.CallInstruction) ssa.Instruction {
+	v := errValueOf(ci)
+	if v == nil {
+		return nil
+	}
+	fn := ci.Parent()
+	uses := map[ssa.Instruction]bool{}
+	seen := map[ssa.Value]bool{}
+	var visit func(v ssa.Value)
+	visit = func(v ssa.Value) {
+		if seen[v] || v.Referrers() == nil {
+			return
+		}
+		seen[v] = true
+		for _, r := range *v.Referrers() {
+			if _, ok := r.(*ssa.DebugRef); ok {
+				continue
+			}
+			uses[r] = true
+			switch x := r.(type) {
+			case *ssa.Store:
+				if a, ok := x.Addr.(*ssa.Alloc); ok && x.Val == v {
+					// a local variable: every load of it counts as a use (conservative: any later load)
+					for _, ar := range *a.Referrers() {
+						if l, ok := ar.(*ssa.UnOp); ok && l.Op == token.MUL {
+							uses[l] = true
+						}
+					}
+				}
+			case *ssa.MakeInterface:
+				visit(x)
+			case *ssa.ChangeInterface:
+				visit(x)
+			}
+		}
+	}
+	visit(v)
+	// the extract itself sits right after the call
+	start := ci.(ssa.Instruction)
+	if e, ok := v.(ssa.Instruction); ok && e.Block() == start.Block() {
+		start = e
+	}
+	idx := errIndex(fn.Signature)
+	nonNil, _ := nonNilOracle(fn)
+	return reachAvoiding(fn, start, func(x ssa.Instruction) bool { return uses[x] }, func(x ssa.Instruction) bool {
+		if r, ok := x.(*ssa.Return); ok {
+			if idx >= 0 && nonNil(returnOperand(r, idx), r.Block()) {
+				return false // the path already reports another failure
+			}
+			return !uses[x]
+		}
+		if _, ok := x.(*ssa.Panic); ok {
+			return false
+		}
+		return false
+	})
 }
